@@ -363,10 +363,11 @@ def run_case(case, R):
             compare_spellings(R, "operator%", f"({la})", outcome(lambda: a_ % b_), outcome(lambda: numpoly.poly_remainder(a_, b_)), "%", "poly_remainder", ["operators", "division"])
             compare_spellings(R, "divmod", f"({la})", outcome(lambda: divmod(a_, b_)), outcome(lambda: numpoly.poly_divmod(a_, b_)), "divmod", "poly_divmod", ["operators", "division"])
         # methods
-        for meth, npf, kws in (("sum", numpy.sum, [{}, {"axis": 0}, {"axis": 0, "keepdims": True}]), ("prod", numpy.prod, [{}, {"axis": 1}]),
-                               ("mean", numpy.mean, [{}, {"axis": 0}]), ("cumsum", numpy.cumsum, [{}, {"axis": 0}]),
-                               ("max", numpy.max, [{}, {"axis": 0}]), ("min", numpy.min, [{}, {"axis": 1}]), ("all", numpy.all, [{}, {"axis": 0}]),
-                               ("any", numpy.any, [{}, {"axis": 0}]),
+        KD = [{"axis": 0, "keepdims": True}, {"keepdims": True}, {"axis": -1, "keepdims": True}, {"axis": 1}, {"axis": 0}, {}]
+        for meth, npf, kws in (("sum", numpy.sum, KD), ("prod", numpy.prod, KD),
+                               ("mean", numpy.mean, KD), ("cumsum", numpy.cumsum, [{}, {"axis": 0}, {"axis": -1}]),
+                               ("max", numpy.max, KD), ("min", numpy.min, KD), ("all", numpy.all, KD),
+                               ("any", numpy.any, KD),
                                ("round", numpy.round, [{}, {"decimals": 1}]), ("transpose", numpy.transpose, [{}]),
                                ("diagonal", numpy.diagonal, [{}, {"offset": 1}]), ("repeat", numpy.repeat, [{"repeats": 2, "axis": 0}]),
                                ("nonzero", numpy.nonzero, [{}])):
